@@ -1,6 +1,7 @@
 """C04 Partial evaluation composes with full evaluation - non-determinism gate."""
 import json, os, re
 from rulelib import *
+from facts import op_local
 import opsum
 
 THOROUGH_CFGS = ('min_none', 'min_rten', 'min_onnx')   # reduced-feature builds of the rten crate (thorough tier)
@@ -39,6 +40,21 @@ def name_literal(fb, o):
             if r and r[0] == 'rv' and r[1][0] == 'use' and r[1][1][0] == 'k':
                 return r[1][1][1].strip('"')
     return None
+
+
+def receiver_local(f, op):
+    """local a `&mut set` receiver operand refers to (through reborrows)"""
+    l = op_local(op)
+    for _ in range(4):
+        d = f.def_of_local(l) if l is not None else None
+        if d is not None and d[2] != 'call' and d[3][0] in ('ref', 'raw') and not any(isinstance(e, list) for e in d[3][2][1:]):
+            l = d[3][2][0]
+            continue
+        if d is not None and d[2] != 'call' and d[3][0] == 'use' and op_local(d[3][1]) is not None:
+            l = op_local(d[3][1])
+            continue
+        break
+    return l
 
 
 def run(ctx):
@@ -231,12 +247,30 @@ def run(ctx):
             if any(c.bb in body for c in pp.calls() if call_is(c, 're:Operator::is_deterministic$')):
                 if main is None or len(body) > len(main[1]):
                     main = (h, body)
-        ins = [c for c in pp.calls() if call_is(c, 're:HashSet::<T, S, A>::insert$|HashSet::<T, S>::insert$') and pp.in_loop(c.bb)]
+        def is_leaf_set(c):
+            nm = (pp.names or {}).get(str(receiver_local(pp, c.args[0])), '')
+            return 'pruned' in nm or 'resolved_inputs' in nm or 'leaves' in nm
+        ins = [c for c in pp.calls() if call_is(c, 're:HashSet::<T, S, A>::insert$|HashSet::<T, S>::insert$') and pp.in_loop(c.bb) and is_leaf_set(c)]
+        ext = [c for c in pp.calls() if call_is(c, 're:HashSet<T, S, A> as core::iter::traits::collect::Extend<.*>>::extend$|HashSet::<T, S, A>::extend$') and main and c.bb in main[1] and is_leaf_set(c)]
         push = [c for c in pp.calls() if call_is(c, 're:Vec::<T, A>::push$') and main and c.bb in main[1]]
-        if ctx.anchor(R, 'prune_plan main loop with is_deterministic, leaf-set insert and pruned_plan.push', bool(main and ins and push)):
+        if ctx.anchor(R, 'prune_plan main loop with is_deterministic, leaf-set insert/extend and pruned_plan.push', bool(main and (ins or ext) and push)):
             H, body = main
-            # header of the inner loop that records resolved inputs of a pruned operator
-            inner = [h2 for h2, b2 in pp.loops() if h2 != H and any(c.bb in b2 for c in ins) and b2 < body]
+            # header of the inner loop (or the block of the extend call) that records resolved inputs of a pruned operator
+            inner = [h2 for h2, b2 in pp.loops() if h2 != H and any(c.bb in b2 for c in ins) and b2 < body] + [c.bb for c in ext]
+            # the recorded values come from the same dependency relation the availability test uses (explicit inputs AND
+            # subgraph captures), not from the operator's explicit input list alone
+            import C17 as _c17
+            rec_ok = True
+            for c in ins:
+                og = _c17.iter_source_origins(fb, pp, op_local(c.args[1]))
+                if not any(o[0] == 'call' and (o[1] or '').endswith('Graph::operator_dependencies') for o in og):
+                    rec_ok = False
+            for c in ext:
+                og = pp.origins(c.args[1])
+                if not any(o[0] == 'call' and (o[1] or '').endswith('Graph::operator_dependencies') for o in og):
+                    rec_ok = False
+            ctx.inst(R, 'recorded-from-dependency-relation', rec_ok, 'the leaves recorded for a pruned operator are drawn from Graph::operator_dependencies (inputs and subgraph captures)' if rec_ok else
+                     'the leaves recorded for a pruned operator are not drawn from Graph::operator_dependencies: values reached only through a subgraph capture are dropped from partial_run\'s result', pp.loc())
             # entry blocks of the region where the plan element is known to be an operator node
             region = set()
             for b in body:
